@@ -159,10 +159,37 @@ func randBlob(r *Rng, nss [][]byte, maxLen int) genBlob {
 	g := genBlob{ns: pick(r, nss)}
 	if r.Bool(40) {
 		g.ver = 1
-		g.signer = r.Bytes(20)
+		g.signer = randSigner(r)
 	}
 	g.data = patterned(r, sparseLen(r, maxLen))
 	return g
+}
+
+// randSigner: random in most cases; otherwise the extreme signer values (all zero - the bytes a share
+// without a signer has in that place -, all 0xff, a single low bit, a single high bit)
+func randSigner(r *Rng) []byte {
+	b := r.Bytes(20)
+	switch r.Intn(12) {
+	case 0, 1:
+		for i := range b {
+			b[i] = 0
+		}
+	case 2:
+		for i := range b {
+			b[i] = 0xff
+		}
+	case 3:
+		for i := range b {
+			b[i] = 0
+		}
+		b[19] = 1
+	case 4:
+		for i := range b {
+			b[i] = 0
+		}
+		b[0] = 0x80
+	}
+	return b
 }
 
 // patterned: random bytes in most cases, otherwise byte patterns that look like
@@ -308,6 +335,10 @@ func randTxList(r *Rng, nNormal, nBlobTx int, maxBlobLen int, mixed bool, nss []
 			l = 1
 		}
 		t := normalTx(r, l)
+		if len(normals) > 0 && r.Intn(12) == 0 {
+			// a byte-identical copy of an earlier ordinary transaction (lookups keyed by content)
+			t = append([]byte(nil), normals[r.Intn(len(normals))].raw...)
+		}
 		off += len(t)
 		for v := len(t); ; v >>= 7 {
 			off++
